@@ -9,9 +9,10 @@ import KlogV.Lemmas.GoDateParse2
 namespace KlogV.GoL
 open KlogV.Go KlogV.Rx
 
-theorem dateFind_of_spec (env : Env) (find : Str → List Str) (h : SubmatchSpec env Gen.rx_klog_datePattern 3 find) :
+theorem dateFind_of_spec (env : Env) (re : Re) (hre : ∀ env m, Matches env (mark re) m ↔ Matches env (mark Expect.date) m)
+    (find : Str → List Str) (h : SubmatchSpec env re 3 find) :
     DateFind find :=
-  DP.dateFind_of_spec env find h
+  DP.dateFind_of_spec env re hre find h
 
 theorem newDateFromString_eq (find : Str → List Str) (hf : DateFind find) (s : List Char) :
     (GoCal.NewDateFromString find s).res = (optRes (Date.parse s)).map Date.toGo := by
